@@ -886,7 +886,7 @@ pub fn jobs_c06(tier: Tier) -> Vec<Job> {
     vec![explore_job(r, tier.pick(3, 4), Caps::default()), explore_job(core, tier.pick(5, 7), Caps::default()), explore_job(many, tier.pick(2, 4), Caps::default())]
 }
 pub fn jobs_c07(tier: Tier) -> Vec<Job> {
-    let r = FuChecker::new("c07-fu-reward", vec!["F1", "F2", "F3", "F7", "F9", "F11"], FAlpha::Reward, vec![c07_share, fu_defaults]);
+    let r = FuChecker::new("c07-fu-reward", vec!["F1", "F2", "F3", "F7", "F9", "F11", "F14"], FAlpha::Reward, vec![c07_share, fu_defaults]);
     let mut d = FuChecker::new("c07-fu-diamond", vec!["F2", "F3", "F13"], FAlpha::RewardCore, vec![c07_share]);
     d.state_oracles = vec![c07_diamond];
     let mut many = FuChecker::new("c07-fu-manyfarms", vec!["F6"], FAlpha::RewardCore, vec![c07_share, c06_rewards]);
